@@ -64,7 +64,7 @@ func (c *Ctx) HandleGenCex(o *Outcome, it *GenItem, r *Result) {
 // C01: the generated parser accepts exactly L(G).
 func C01(c *Ctx) int {
 	o := &Outcome{}
-	c.runParseCheck(o, parseCheck{Func: "H_Member", Label: "parse.Member", Grammars: corpus.ParserLanguage(),
+	c.runParseCheck(o, parseCheck{Func: "H_Member", Label: "parse.Member", Grammars: corpus.ParserLanguageAll(c.Thorough()),
 		MaxNQuick: 5, MaxNThor: 8, SelfTestN: 5, ReachAny: []string{"accepted", "rejected"}})
 	o.Assumptions = []string{"the grammar dimension is an enumerated corpus, not solver-decided",
 		"token kinds range over the item's terminals (EOF and ERROR excluded)",
@@ -76,7 +76,7 @@ func C01(c *Ctx) int {
 // C03: actions are the unique bottom-up derivation; sugar values.
 func C03(c *Ctx) int {
 	o := &Outcome{}
-	c.runParseCheck(o, parseCheck{Func: "H_Tree", Label: "parse.Tree", Grammars: corpus.ParserLanguage(),
+	c.runParseCheck(o, parseCheck{Func: "H_Tree", Label: "parse.Tree", Grammars: corpus.ParserLanguageAll(c.Thorough()),
 		MaxNQuick: 5, MaxNThor: 8, ReachAny: []string{"accepted"}})
 	o.Assumptions = []string{"corpus grammars; Discard() results are symbolic per token and per node",
 		"the derivation-tree checker (mine) accepts exactly derivation trees whose leaves are the input in order; uniqueness of the tree follows from lox accepting the grammar (C04) "}
@@ -89,7 +89,7 @@ func C16(c *Ctx) int {
 	o := &Outcome{}
 	var gs []*corpus.Grammar
 	for _, g := range corpus.WithBounds(corpus.ParserLanguage()) {
-		if g.Name == "P-filter+B" || g.Name == "P-filter-tok+B" {
+		if strings.Contains(g.Src, "*!") {
 			continue // the span of dropped *! elements is not pinned down by the documentation
 		}
 		gs = append(gs, g)
@@ -106,7 +106,7 @@ func C16(c *Ctx) int {
 func C05(c *Ctx) int {
 	o := &Outcome{}
 	c.runParseCheck(o, parseCheck{Func: "H_Prec", Label: "parse.Prec", Grammars: corpus.ParserPrecedence(),
-		MaxNQuick: 5, MaxNThor: 9, ReachAny: []string{"accepted", "two-operators"}})
+		MaxNQuick: 6, MaxNThor: 9, ReachAny: []string{"accepted", "two-operators"}})
 	o.Assumptions = []string{"operator tables are an enumerated corpus; the reference is a precedence-climbing parser of mine"}
 	o.Outside = []string{"mixed associativity at one level (undocumented)", "inputs longer than the bound"}
 	return c.Finish(o)
